@@ -542,8 +542,20 @@ Section Proofs.
   Qed.
 
   Lemma solver_run_empty : forall c o e m s0,
-    solver_run c o e m s0 [] = Raise IndexError.
+    solver_run c o e m s0 []
+    = match c, new_result c o e m with
+      | CStoch, Raise x => Raise x
+      | _, _ => Raise IndexError
+      end.
   Proof. reflexivity. Qed.
+
+  Lemma solver_run_empty_not_ok : forall c o e m s0 r,
+    solver_run c o e m s0 [] = Ok r -> False.
+  Proof.
+    intros c o e m s0 r H. rewrite solver_run_empty in H.
+    destruct c; try discriminate.
+    destruct (new_result CStoch o e m); discriminate.
+  Qed.
 
   Lemma solver_run_ok : forall c o e m s0 t0 rest,
     forallb op_ok (map snd (e_ops_to_dict e)) = true ->
